@@ -389,6 +389,21 @@ def run(F, R):
             with fv.restrict(region):
                 ret = terms.render(fv, fv.trace_local(0), W, {})
             R.check("C18-R1", "same-plan-returns-stored", "unwrap_or(poll(get_time(" in ret and "'update_first_seen_time'" in ret and ret.endswith(", param1.2)") or ("get_time" in ret and "update_first_seen_time" in ret), ret[:160], "for the same plan the function returns %s" % ret[:160])
+        # a plan id must never stay stored without its first-seen time: when the time cannot be written, the id written just
+        # before is taken back (otherwise every later attempt of the same plan finds "its" id, skips the write, and has no time)
+        if setfirst:
+            ferr = []
+            for sb in sorted(fv.reach0):
+                si = guards.switch_info(fv, sb)
+                if si and si.kind == "discr" and si.ty.get("d") == "std::result::Result" and "set_time" in (lib.head_call(si.term) or "") and "'update_first_seen_time'" in fmt_t(si.term):
+                    for tgt in fv.succ[sb]:
+                        if "Err" in si.edge_names(fv, tgt):
+                            ferr.append((sb, tgt))
+            rmplan = [k["bi"] for k in bykey.get(K["plan"], []) if k["name"] in ("remove", "remove_or_log") and k["bv"] is fv]
+            if R.floor("C18-R1", "error edge of the first-seen write", len(ferr), 1):
+                esc = set(fv.exits()) & fv.reach_from([b for _, b in ferr], avoid=rmplan)
+                R.check("C18-R1", "id-taken-back-when-time-write-fails", bool(rmplan) and not esc, "a failed first-seen write removes the plan id again before returning",
+                        "when writing the first-seen time fails the plan id stays stored without a time: later attempts of the same plan never record one", lib.loc(fv, ferr[0][0]))
         commits = [bi for bi, t in fv.calls() if t.get("trait") in ("storage::Storage", "storage::StorageExt") and t["name"] in ("commit", "commit_or_log")]
         if setfirst:
             ok_edges = []
